@@ -87,7 +87,7 @@ def run_case(ctx, rng, idx, params, tier):
     counters = {"round_trips": 0, "name_uniqueness_checks": 0}
     shapes = set()
     for _ in range(100):
-        g = gtypes.TGen(rng, functions=False, farrays=True, lists=False)
+        g = gtypes.TGen(rng, functions=False, farrays=True, lists=False, big_consts=True)
         t = g.ty(rng.randint(1, 4))
         ty = ENV.ty(t)
         s = str(ty)
